@@ -1805,3 +1805,64 @@ func rulePrefixCover(c *Ctx) {
 		}
 	}
 }
+
+// ---------------------------------------------------------------- R-OFFSET-BACK
+
+func init() {
+	reg(&Rule{ID: "R-OFFSET-BACK", Min: 8,
+		Doc: "at every emission site the Offset is at most the match start position in the buffer (Offset ≤ H, so the source of the match lies at a buffer index ≥ 0 — a fortiori Offset ≤ number of stream bytes before the match); table positions are unsigned, lcs results are bounded by the compared range",
+		Run: ruleOffsetBack})
+}
+
+func ruleOffsetBack(c *Ctx) {
+	for _, e := range c.emits() {
+		fi := c.info(e.Fn)
+		if isFieldFlow(e.Offset) {
+			c.assumed(e.Key, e.Pos, "stored record: the edge offset is seg[j] − seg[j−1] for entries of a suffix array (entries ≥ 0 by the contract of suffix.Sort, C09), hence ≤ the position seg[j]")
+			continue
+		}
+		q := litSlice(e)
+		if q == nil {
+			c.fail(e.Key, e.Pos, "no literal slice")
+			continue
+		}
+		// positions read from a suffix array are signed: their non-negativity is the sorter's contract
+		if g := c.gsap(); g.err == "" && g.scan != nil && g.scan.Fn == e.Fn {
+			c.assumed(e.Key, e.Pos, "the source position is an entry of the suffix array (≥ 0 by the contract of suffix.Sort, C09), hence Offset = i − sa[k] ≤ i")
+			continue
+		}
+		h := fi.lin(q.High)
+		okAll := true
+		detail := ""
+		n := 0
+		for _, lf := range phiLeaves(stripConv(e.Offset)) {
+			if k, isC := constInt(lf.V); isC && k == 0 {
+				continue // the initial "no candidate" value; excluded at the emission by 0 < Offset (R-WINGUARD)
+			}
+			n++
+			at := e.Block
+			if lf.Pred != nil {
+				at = lf.Pred
+			}
+			goal := fi.lin(stripConv(lf.V)).sub(h)
+			ok := fi.proveAt(goal, at, nil) || fi.proveByCases(goal, at, nil)
+			if !ok && lf.Pred == nil {
+				if s := c.scanOf(e); s != nil {
+					cases := fi.expandCases(goal, s.L, e.Block)
+					ok = len(cases) > 0
+					for _, cs := range cases {
+						if !fi.proveFlat(cs.L, cs.Conds, cs.Eqs) && !fi.proveByCasesFrom(cs.L, e.Block, cs.Conds, cs.Eqs, cs.Preds...) {
+							ok = false
+						}
+					}
+				}
+			}
+			if !ok {
+				okAll = false
+				detail = fmt.Sprintf("offset value %s vs match start %s", fi.lin(stripConv(lf.V)), h)
+			}
+		}
+		c.check(okAll && n > 0, e.Key, e.Pos, fmt.Sprintf("every offset value is ≤ the match start %s (source position ≥ 0)", h),
+			"the emitted Offset is not shown to be ≤ the match start position ("+detail+"): the match could refer to bytes before the start of the buffered stream")
+	}
+}
